@@ -460,6 +460,7 @@ package rsl
 //@   ensures annotationsRefer: err == nil ==> forall i :: 0 <= i && i < len(anns) ==> anns[i] != nil && refersTo(anns[i], e.GetID())
 //@   # options are applied through function values, which the verifier treats as arbitrary writers of the options
 //@   # record: the body is proved for every option record; what a given option list means is assumed below
+//@   assumed err == nil ==> notNil(e)
 //@   # summary for callers passing a single ForReference option, in terms of the recursive scan definition latestRefEntry
 //@   # (assumed: relating the bounded proof above to the unbounded recursive definition needs an induction not done here)
 //@   assumed len(opts) == 1 && optKind(opts[0]) == 1 && err == nil ==> refSet[Ref] && hasRefEntry(refTip[Ref], optStr(opts[0])) && e != nil && entryAt(e, latestRefEntry(refTip[Ref], optStr(opts[0])))
